@@ -70,6 +70,19 @@ def oracle_c05(inp, out):
                 if [int(x) for x in e["b"]] != [int(x) for x in e["exit"]]:
                     v.append(({"class": "batch-aliased"},
                               "step %d: the runner function was entered with %s; when it returned the same slice held %s" % (k, e["b"], e["exit"]), k))
+    # "… still holds for entries written after the process was stopped at any moment and started again": Close returning is the
+    # signal that nothing more reaches the store — it may not come back while a call of the runner function (InsertLogs) is running
+    in_call, told = None, False
+    for k, st in enumerate(out.get("steps") or []):
+        for e in st.get("ev") or []:
+            if e["e"] == "batch":
+                in_call = [int(x) for x in e["b"]]
+            elif e["e"] == "ret":
+                in_call = None
+        if st.get("close") == "returned" and in_call is not None and not told:
+            told = True
+            v.append(({"class": "close-returned-while-call-in-flight"},
+                      "step %d (%s): Close has returned although the runner function, entered with %s, has not returned yet" % (k, st.get("op"), in_call), k))
     return v
 
 
